@@ -166,6 +166,13 @@ fn main() {
                 mdwh::dumprun::run_scenario(&scn, &workdir, &mut tr);
             }
         }
+        "flood" => {
+            let workdir = flag_str(&args.extra, "--workdir").unwrap_or_else(|| "/tmp".into());
+            let rounds = flag_val(&args.extra, "--rounds").unwrap_or(1);
+            for r in 0..rounds {
+                mdwh::flood::run(args.random.max(100), args.seed + r, &workdir, &mut tr);
+            }
+        }
         _ => usage(),
     }
     tr.flush();
